@@ -18,6 +18,10 @@ def jobs(tier):
         Job('layout3.zero_width', H, 'h_layout3_zero_width', defines={'NDEBUG': None}, unwind=30,
             no_standard_checks=True, object_bits=11, incdirs=[REPO + '/c2mir'], kind='bounded', timeout=900, solver='cadical',
             bound='as layout3, bit-field widths include 0', scope=['run_layout3']),
+        Job('anon_members_offset', 'harness/c08_anon.c', 'h_members_offset', defines={'NDEBUG': None}, unwind=3, unwindset=['update_members_offset.0:4', 'DLIST_node_t_el.0:3'], no_standard_checks=True,
+            object_bits=11, incdirs=[REPO + '/c2mir'], kind='bounded', timeout=900, solver='cadical', ops=[('deunion', ('tag_type',))],
+            bound='anonymous aggregate with 2 members and a static assertion, the second member a nested anonymous aggregate with 1 member',
+            scope=['mk_tag']),
     ]
 
 
